@@ -11,13 +11,18 @@ from verif.jaxfuncs import FUNCS
 
 LEVEL = "translation_validation"
 BOUNDS = {"functions": "14 JAX functions: arithmetic, literal outputs, closed-over constants, static/dynamic indexing, dynamic update, select, cond, switch, scan (length 3), fori (3), bounded while (<=4, unwinding assertion), multi-output primitives, pytrees, unused inputs",
-          "taggings": "all 2^n NoChange/UnknownChange taggings of the n<=3 inputs (per top-level argument)"}
+          "taggings": "all 2^n NoChange/UnknownChange taggings of the n<=3 inputs (per top-level argument), with the singleton tag objects and with tag objects rebuilt by a pytree round trip"}
 ASSUMPTIONS = ["non-interference is decided by self-composition: two runs that agree on the NoChange-tagged inputs and are otherwise unrelated"]
 OUTSIDE = ["custom propagation rules (none are registered in the tree)", "functions outside the grammar"]
 
 
-def tag(args, tagging):
-    return tuple(jax.tree_util.tree_map(lambda _: UnknownChange if t else NoChange, a) for a, t in zip(args, tagging))
+def tag(args, tagging, fresh=False):
+    tags = tuple(jax.tree_util.tree_map(lambda _: UnknownChange if t else NoChange, a) for a, t in zip(args, tagging))
+    if fresh:
+        # the tag classes are leafless pytrees: any flatten/unflatten (jax.vmap over argdiffs, tree_map, a jit boundary) rebuilds them as
+        # fresh instances that are equal to, but not identical with, the module-level singletons
+        tags = jax.tree_util.tree_map(lambda v: v, tags)
+    return tags
 
 
 def obligations(tier, seed):
@@ -46,4 +51,17 @@ def obligations(tier, seed):
                 return keep1 + [jnp.int32(len(keep1))], keep2 + [jnp.int32(len(keep2))]
 
             obs.append(Ob(f"C09/noninterference/{nm}/{ts}", nonint, (args, args), note="outputs tagged NoChange are equal for any two inputs that agree on the NoChange-tagged arguments"))
+            if any(tagging):
+                def nonint_fresh(a, b, f=f, tagging=tagging):
+                    b2 = tuple(y if t else x for x, y, t in zip(a, b, tagging))
+                    o1 = incremental(f)(None, a, tag(a, tagging, fresh=True))
+                    o2 = incremental(f)(None, b2, tag(b2, tagging, fresh=True))
+                    l1 = jax.tree_util.tree_leaves(o1, is_leaf=lambda v: isinstance(v, Diff))
+                    l2 = jax.tree_util.tree_leaves(o2, is_leaf=lambda v: isinstance(v, Diff))
+                    keep1 = [v.primal for v in l1 if v.tangent == NoChange]
+                    keep2 = [v.primal for v in l2 if v.tangent == NoChange]
+                    return keep1 + [jnp.int32(len(keep1))], keep2 + [jnp.int32(len(keep2))]
+
+                obs.append(Ob(f"C09/noninterference-roundtripped-tags/{nm}/{ts}", nonint_fresh, (args, args),
+                              note="the same 2-safety query with change tags that went through a pytree round trip (fresh tag instances, as jax.vmap / tree_map produce them)"))
     return obs
